@@ -399,6 +399,7 @@ def main(out_path: str):
     parts.append(dict_ss("c04Consts", {n: getattr(constants, n) for n in (
         "AUDIO_QUALITY_VOICE_ONLY", "AUDIO_QUALITY_LOW", "AUDIO_QUALITY_NORMAL", "AUDIO_QUALITY_EXTERNAL",
         "FIELD_LIST", "TABLE_LIST", "LIST_NOLABEL")}, "constants used by the parameter / appearance blocks of workbook_to_json"))
+    parts.append(list_s("xmlReservedNamespaces", sorted(getattr(utils, "XML_RESERVED_NAMESPACES", ())), "utils.XML_RESERVED_NAMESPACES (validate_xml_document; empty before the C01-reserved-namespace-names fix)"))
     parts.append("end Pyxv.Gen\n")
     # several slices may ask for the same table: keep the first definition of each name
     seen, uniq = set(), []
